@@ -9,7 +9,7 @@ import json, os, random, re
 REPO = os.environ.get("VERIF_REPO", "/repo")
 HARNESS_OVERRIDE = None     # set by gen_checks when the harness module is a scratch copy
 
-KINDS = ["struct", "ptr", "int", "slice", "map", "generic", "ext", "any", "bytes"]
+KINDS = ["struct", "ptr", "int", "slice", "map", "generic", "ext", "any", "bytes", "ustruct"]
 PARAM_KINDS = KINDS + ["errv", "errv"]     # the type error can only come from cff.Params (a task's error result is not a value)
 SENTINEL = "h.Sentinel"
 
@@ -47,20 +47,22 @@ class Ty:
         if alt and self.kind == "bytes":
             return "[]uint8"
         return {"struct": n, "ptr": "*" + n, "int": n, "slice": "[]%sE" % n, "map": "map[string]%sE" % n,
-                "generic": "%s[string]" % n, "ext": "ext.E%d" % self.k, "any": "any", "errv": "error", "bytes": "[]byte"}[self.kind]
+                "generic": "%s[string]" % n, "ext": "ext.E%d" % self.k, "any": "any", "errv": "error", "bytes": "[]byte",
+                "ustruct": "struct{ Tok int }"}[self.kind]       # an unnamed struct type, written out at every use
 
     def mk(self, tok):
         n = self.n
         return {"struct": "%s{Tok: %s}" % (n, tok), "ptr": "&%s{Tok: %s}" % (n, tok), "int": "%s(%s)" % (n, tok),
                 "slice": "[]%sE{{Tok: %s}}" % (n, tok), "map": 'map[string]%sE{"k": {Tok: %s}}' % (n, tok),
                 "generic": "%s[string]{Tok: %s}" % (n, tok), "ext": "ext.E%d{Tok: %s}" % (self.k, tok),
-                "any": "any(h.TokBox{Tok: %s})" % tok, "errv": "h.TokErr(%s)" % tok, "bytes": "h.TokBytes(%s)" % tok}[self.kind]
+                "any": "any(h.TokBox{Tok: %s})" % tok, "errv": "h.TokErr(%s)" % tok, "bytes": "h.TokBytes(%s)" % tok,
+                "ustruct": "struct{ Tok int }{Tok: %s}" % tok}[self.kind]
 
     def acc(self, v):
         n = self.n
         return {"struct": "%s.Tok" % v, "ptr": "tok%s(%s)" % (n, v), "int": "int(%s)" % v,
                 "slice": "tok%s(%s)" % (n, v), "map": '%s["k"].Tok' % v, "generic": "%s.Tok" % v,
-                "ext": "%s.Tok" % v, "any": "h.AnyTok(%s)" % v, "errv": "h.ErrTok(%s)" % v, "bytes": "h.BytesTok(%s)" % v}[self.kind]
+                "ext": "%s.Tok" % v, "any": "h.AnyTok(%s)" % v, "errv": "h.ErrTok(%s)" % v, "bytes": "h.BytesTok(%s)" % v, "ustruct": "%s.Tok" % v}[self.kind]
 
 
 # ------------------------------------------------------------------ rendering
@@ -88,6 +90,10 @@ class W:
         self.k = 0
 
     def arg(self, expr, form=None):
+        if getattr(self, "pending_mut", None):
+            # h.ArgThen logs the evaluation like h.Arg and then runs the side effect
+            expr, form = "h.Then(func() { %s}, %s)" % (self.pending_mut, expr), "call"
+            self.pending_mut = None
         form = form or self.rng.choice(self.forms)
         self.args.append((expr, form))
         return "\x00%d\x00" % (len(self.args) - 1)
@@ -197,7 +203,14 @@ def render_flow(p):
 
     blocks = {}
 
+    latemut = st.get("latemut") and p["params"] and all(tys[ty].kind in ("struct", "generic", "ext", "ustruct") for ty in p["params"])
+
     def opt_params():
+        if latemut:
+            # plain reads of local variables (no call in the expression); an argument further down the directive
+            # overwrites those variables after it has been evaluated: seen only if evaluation is out of source order
+            w.pending_mut = "".join("pv%d.Tok = h.LateTok; " % ty for ty in p["params"])
+            return "\t\tcff.Params(%s),\n" % ", ".join("pv%d" % ty for ty in p["params"])
         return "\t\tcff.Params(%s),\n" % ", ".join(w.arg(tys[ty].mk("h.ParamTok(%d)" % ty)) for ty in p["params"])
 
     def opt_results():
@@ -296,6 +309,8 @@ def render_flow(p):
         else:
             text += opt_task(unit(p, o))
     pre, dtext = w.finish("\terr := cff.Flow(\n\t\t%s,\n" % ctxph + text + "\t)\n")
+    if latemut:
+        body.append("".join("\tpv%d := %s\n" % (ty, tys[ty].mk("h.ParamTok(%d)" % ty)) for ty in p["params"]))
     if st.get("uservars"):
         body.append("\tstartTime, emitter := h.Epoch, h.UserEmitter\n\t_, _ = startTime, emitter\n")
     src = "func %s(x *h.X) {\n" % name + "".join(body) + pre + dtext
@@ -484,6 +499,7 @@ def respell(text, fstyle):
     return text
 
 
+LONGLINE = "var {n}Blob = \"" + "x" * 70000 + "\" // one line of more than 64 KiB\n\n"
 SURROUND = [
     "// {n}Const is surrounding code that generation must not touch.\nconst {n}Const = {k} // trailing comment\n\n",
     "var {n}Var = []string{{\"a\", \"b\"}} /* block comment */\n\n",
@@ -538,6 +554,8 @@ def write_module(root, packages, fancy=True):
                 decls += dd
                 if fancy:
                     srcs += rng.choice(SURROUND).format(n=p["name"], k=rng.randint(1, 99))
+                    if rng.random() < 0.04:
+                        srcs += LONGLINE.format(n=p["name"])
                 srcs += ss + "\n"
                 q = {k: v for k, v in p.items() if k not in ("style", "file")}
                 allprogs.append(q)
@@ -568,7 +586,7 @@ def pick_kinds(rng, ntypes, params):
     out, used = {}, set()
     for k in range(1, ntypes + 1):
         kind = rng.choice(PARAM_KINDS if k in params else KINDS)
-        if kind in ("any", "errv", "bytes"):
+        if kind in ("any", "errv", "bytes", "ustruct"):
             if kind in used:
                 kind = "struct"
             used.add(kind)
@@ -646,6 +664,7 @@ def gen_flow(rng, name, max_tasks=4, features=None, plain=False):
                         spell={str(u["id"]): rng.choice(["lit", "lit", "paren", "method"]) for u in units},
                         argforms=rng.choice([["call"], ["call", "call", "ident"], ["call", "ident"]]), argseed=rng.randint(0, 10**6),
                         altspell={str(u["id"]): rng.random() < 0.5 for u in units}, uservars=rng.random() < 0.3,
+                        latemut=rng.random() < 0.35,
                         emitshape=emitshape, emittree=emittree))
     return p
 
